@@ -36,7 +36,10 @@ def serveLine (st : ServeSt) (fs : List String) : ServeSt × Option (Except Stri
       else if e == ob then (st', some (.ok (!mine.isEmpty)))
       else ({ st' with dead := true }, some (.error s!"pushes expected={hex e} got={obs} ({status})"))
     | _, _ => (st, some (.error "bad drain line"))
-  | ["C", c, payload, "=>", t0, _t1, obs, status] =>
+  | [tag, c, payload, "=>", t0, _t1, obs, status] =>
+    -- `HC`: the same pipeline written on a fresh TCP connection whose sending side the client then closes (half-close) while it keeps reading to
+    -- the end of the stream: every command that was written is still read, executed and answered; afterwards the connection is gone
+    if tag != "C" && tag != "HC" then (st, none) else
     if st.dead then (st, some (.ok false)) else
     match c.toNat?, unhex payload, unhex obs, t0.toInt? with
     | some c, some p, some ob, some t0 =>
@@ -67,7 +70,7 @@ def serveLine (st : ServeSt) (fs : List String) : ServeSt × Option (Except Stri
           match (expReplies.zip obsR).find? (fun (w, o) => !replyAgrees (canonReply w.name w.reply) (canonReply w.name o)) with
           | some (w, o) =>
             ({ st with dead := true }, some (.error s!"reply to {hex w.name} expected={hex (Resp.encode w.reply)} got={hex (Resp.encode o)}"))
-          | none => ({ st with srv := srv' }, some (.ok (expReplies.any fun w => !w.reply.isErr)))
+          | none => ({ st with srv := if tag == "HC" then srv'.clientClose c else srv' }, some (.ok (expReplies.any fun w => !w.reply.isErr)))
     | _, _, _, _ => (st, some (.error "bad serve line"))
   | _ => (st, none)
 
